@@ -28,7 +28,7 @@ struct CallRes {
   bool operator==(const CallRes &o) const { return null_ret == o.null_ret && out == o.out && aux == o.aux; }
 };
 // ops: 0 crypt_r 1 crypt_rn 2 crypt_ra 3 crypt_gensalt_rn 4 crypt_gensalt_ra 5 crypt_checksalt 6 crypt_preferred_method
-static const char *const OPN[] = {"crypt_r", "crypt_rn", "crypt_ra", "crypt_gensalt_rn", "crypt_gensalt_ra", "crypt_checksalt", "crypt_preferred_method"};
+static const char *const OPN[] = {"crypt_r", "crypt_rn", "crypt_ra", "crypt_gensalt_rn", "crypt_gensalt_ra", "crypt_checksalt", "crypt_preferred_method", "crypt_gensalt_rn/_ra(rbytes=NULL)"};
 struct ThreadCtx {
   std::vector<std::pair<int, int>> ops;  // (op, request index)
   std::vector<CallRes> res;
@@ -70,6 +70,23 @@ static CallRes do_call(ThreadCtx &t, int op, int ri) {
       char *p = crypt_gensalt_ra(pf.c_str(), 0, rb, 64);
       c.null_ret = !p;
       if (p) { c.out = p; free(p); }
+      break;
+    }
+    case 7: {
+      // OS entropy: the salt differs from call to call by design, so only success and the method tag are compared
+      char out[CRYPT_GENSALT_OUTPUT_SIZE];
+      Bytes pf = r.S.substr(0, r.S.size() < 6 ? r.S.size() : 6);
+      char *p = (ri & 1) ? crypt_gensalt_rn(pf.c_str(), 0, nullptr, 0, out, sizeof out) : crypt_gensalt_ra(pf.c_str(), 0, nullptr, 0);
+      c.null_ret = !p;
+      if (p) {
+        c.out = METHOD_NAME[classify_tag(Bytes(p))];  // only the method is comparable
+        // a salt of all '.' means the random bytes were zeros (for 96-bit and longer salts that does not happen)
+        Bytes full = p;
+        size_t dots = 0;
+        for (size_t i = full.size(); i > 0 && full[i - 1] == '.'; i--) dots++;
+        if (dots >= 16) c.aux = 1;
+        if (!(ri & 1)) free(p);
+      }
       break;
     }
     case 5: c.aux = crypt_checksalt(r.S.c_str()); c.null_ret = false; break;
@@ -176,7 +193,7 @@ static Verdict c08_check(const KV &c, Ctx &ctx) {
   for (int i = 0; i < T; i++) {
     for (size_t k = 0; k < per; k++) {
       size_t off = 2 * ((size_t)i * per + k);
-      th[(size_t)i].ops.emplace_back((unsigned char)ops[off] % 7, (unsigned char)ops[off + 1] % nreq);
+      th[(size_t)i].ops.emplace_back((unsigned char)ops[off] % 8, (unsigned char)ops[off + 1] % nreq);
     }
     th[(size_t)i].cd = (struct crypt_data *)calloc(1, DS);
     th[(size_t)i].gaps = (int)((unsigned char)c.get("gaps")[(size_t)i % (c.get("gaps").size() ? c.get("gaps").size() : 1)]) * 257;
@@ -265,7 +282,7 @@ static int c08_run(Ctx &ctx) {
     size_t per = (size_t)g::pick(10, 30);
     Bytes ops;
     for (size_t i = 0; i < per * (size_t)T; i++) {
-      ops.push_back((char)g::wpick({5, 5, 4, 3, 3, 2, 1}));
+      ops.push_back((char)g::wpick({5, 5, 4, 3, 3, 2, 1, 3}));
       ops.push_back((char)g::pick(0, 9));
     }
     c.set("ops", ops);
